@@ -30,6 +30,7 @@ FEATS = dict(div=False, ts=False, strftime=False, nulls_order=True, setops_all=T
              any_sub=False,                 # unnest_subqueries compares the operand with a boolean for correlated ANY
              group_derived_expr=False,      # simplify rewrites an inlined GROUP BY expression differently from SELECT
              const_cmp=False,               # simplify folds CASE with a constant-true later branch / drops parentheses
+             derived_const=False,           # ... also reachable through constants projected by a derived table
              derived_order_nolimit=False,   # merge_subqueries keeps an inner ORDER BY that names dropped aliases
              outer_derived=False,           # merge_subqueries inlines constants from the null-supplying side
              subq_under_or=False,           # unnest_subqueries turns a subquery predicate under NOT / OR into a join filter
@@ -42,7 +43,7 @@ FEATS = dict(div=False, ts=False, strftime=False, nulls_order=True, setops_all=T
 T = sqlgen.Table
 _T1 = T("t1", [("k", sqlgen.INT), ("a1", sqlgen.INT), ("b1", sqlgen.INT), ("s1", sqlgen.TEXT)])
 _T2 = T("t2", [("k", sqlgen.INT), ("a2", sqlgen.INT), ("b2", sqlgen.INT), ("s2", sqlgen.TEXT)])
-_D = {"t1": [(1, 2, 2, "x"), (2, -2, 3, None), (None, 0, 1, "y")], "t2": [(1, 2, 2, "x"), (3, 3, None, "10")]}
+_D = {"t1": [(1, 2, 2, "x"), (2, -2, 3, None), (None, 0, 1, "y"), (5, 5, 5, "")], "t2": [(1, 2, 2, "x"), (3, 3, None, "10")]}
 PROBES = [
     ("probe/merge_subqueries:inner-order-by-without-limit",
      "SELECT 0 AS p5 FROM (SELECT x1.a2 AS p2, x1.k AS p3 FROM t2 AS x1 ORDER BY p2 NULLS FIRST, p3 NULLS FIRST) AS c4"),
@@ -57,6 +58,8 @@ PROBES = [
      "SELECT CASE WHEN 'y' >= 'q' THEN x.a1 + x.b1 ELSE 3 END * x.b1 AS p12 FROM t1 AS x"),
     ("probe/unnest_subqueries:subquery-predicate-under-not",
      "SELECT * FROM t1 WHERE NOT (t1.k <> (SELECT MAX(x6.k) FROM t2 AS x6) AND 2 IN (SELECT x7.a2 FROM t2 AS x7 WHERE x7.k = t1.k))"),
+    ("probe/simplify:or-of-two-bounds-on-one-column-keeps-the-wrong-one",
+     "SELECT CASE WHEN '' <= x1.s1 OR x1.s1 > '' THEN 1 ELSE 0 END AS p3 FROM t1 AS x1"),
     ("probe/eliminate_joins:cross-joined-derived-table-may-be-empty",
      "SELECT x1.a1 AS p9 FROM t1 AS x1 CROSS JOIN (SELECT MAX(a2) AS m7 FROM t2 AS x2 WHERE x2.a2 > 100 GROUP BY x2.k) AS d8"),
     ("probe/simplify:comparison-flipped-in-select-not-in-group-by",
@@ -194,6 +197,9 @@ def check_query(ctx, E, q, text, tables, data, i=0, sigprefix=""):
         out = E.run("duckdb", sql_out, ordered)
         ctx.count("executions_compared")
         bad = None
+        if out[0] != "ok" and "INTERNAL Error" in out[1]:
+            ctx.count("engine_bug_dropped")   # DuckDB's own assertion failure, not a verdict on the SQL
+            return True
         if out[0] != "ok":
             bad = ("engine-rejects-output", out[1])
         elif out[1] != base[1]:
